@@ -1343,6 +1343,39 @@ impl<'a> DocGen<'a> {
         }
         out
     }
+    /// a copy of the composite field selection `s` (same response key, field and arguments)
+    /// whose sub-selection keeps (varied copies of) some composite sub-fields and adds other leaves
+    pub fn vary(&mut self, parent_ty: &str, s: &SelN) -> Option<SelN> {
+        if let SelN::Field { alias, name, args, sels, .. } = s {
+            if sels.is_empty() || name == "__typename" {
+                return None;
+            }
+            let fd = self.sd.find(parent_ty)?.fields.iter().find(|f| &f.name == name)?.clone();
+            let child_ty = fd.ty.base().to_string();
+            let ct = self.sd.find(&child_ty)?.clone();
+            let mut new = vec![];
+            for sub in sels {
+                if let SelN::Field { sels: ss, .. } = sub {
+                    if !ss.is_empty() && self.rng.chance(2, 3) {
+                        if let Some(v) = self.vary(&child_ty, sub) {
+                            new.push(v);
+                        }
+                    }
+                }
+            }
+            let leaves: Vec<FieldD> = ct.fields.iter().filter(|f| !self.sd.is_composite(f.ty.base()) && f.name != "echo").cloned().collect();
+            if !leaves.is_empty() {
+                let f = self.rng.pick(&leaves).clone();
+                new.push(SelN::Field { alias: None, name: f.name, args: vec![], dirs: vec![], sels: vec![], pos: (0, 0) });
+            } else {
+                new.push(SelN::Field { alias: None, name: "__typename".into(), args: vec![], dirs: vec![], sels: vec![], pos: (0, 0) });
+            }
+            Some(SelN::Field { alias: alias.clone(), name: name.clone(), args: args.clone(), dirs: vec![], sels: new, pos: (0, 0) })
+        } else {
+            None
+        }
+    }
+
     pub fn selection_set(&mut self, ty: &str, depth: usize) -> Vec<SelN> {
         let t = self.sd.find(ty).unwrap().clone();
         let n = 1 + self.rng.below(4);
@@ -1452,6 +1485,18 @@ pub fn gen_request_b(sd: &SchemaD, rng: &mut Rng, dist: &mut Dist, op_ty: &str, 
     while sels.is_empty() {
         g.budget = budget;
         sels = g.selection_set(&root, depth);
+    }
+    // repeat one composite root field with a DIFFERENT sub-selection that overlaps the first on
+    // its composite sub-fields (nested merging of repeated response keys)
+    if g.rng.chance(1, 3) {
+        let cands: Vec<SelN> = sels.iter().filter(|s| matches!(s, SelN::Field { sels: ss, .. } if !ss.is_empty())).cloned().collect();
+        if !cands.is_empty() {
+            let c = g.rng.pick(&cands).clone();
+            if let Some(v) = g.vary(&root, &c) {
+                g.dist.hit("doc_repeated_composite_varied");
+                sels.push(v);
+            }
+        }
     }
     let frags_now = g.frags.clone();
     let mut used: Vec<String> = vec![];
